@@ -50,7 +50,7 @@ def run(ctx):
                 "free_compressed_memory, mixed). Decisive: never a panic, never a hang/timeout, never an abort. A sample is also "
                 "run on the Lean operational model and the class {numbers | error kind} and bit positions are compared. "
                 "non-trivial = mutant whose decoding gets past the header")
-    files = D.make_files(ctx, 15 if ctx.quick else 90, small=True) + D.make_files(ctx, 4 if ctx.quick else 30)
+    files = D.make_files(ctx, 30 if ctx.quick else 150, small=True) + D.make_files(ctx, 8 if ctx.quick else 50)
     lines, info = [], []
     for f in files:
         raw = bytes.fromhex(f["hex"])
